@@ -96,6 +96,12 @@ pub fn run(data: &[u8], ctx: &mut Ctx) -> Outcome {
         let conforms = CONFORMS[src.below(CONFORMS.len())];
         let am = att_model(&pm, vendor, conforms);
         let digest = am.digest();
+        // the generated base may hold this very assertion already, in obscured form (same digest): adding it
+        // again changes nothing, and an obscured attachment cannot be read - not a case for this check
+        if bm.assertions().iter().any(|a| a.digest() == digest) {
+            ctx.class("assertion-already-present-obscured");
+            return Outcome::Pass;
+        }
         if via_container {
             container.add(payload.clone(), vendor, conforms);
         } else if src.bool() {
@@ -299,6 +305,16 @@ pub fn run(data: &[u8], ctx: &mut Ctx) -> Outcome {
             t = nopanic!(ctx, t.add_type(s.as_str()), "types", "C19/types");
             type_digests.insert(M::text(&s).digest());
             added_text.push(s);
+        }
+    }
+    // (as for attachments: an 'isA' assertion the base already holds in obscured form is not added again and
+    // cannot be read)
+    {
+        let held: BTreeSet<D32> = bm.assertions().iter().map(|a| a.digest()).collect();
+        let collides = added_known.iter().any(|v| held.contains(&M::assertion(M::Known(1), M::Known(*v)).digest())) || added_text.iter().any(|t| held.contains(&M::assertion(M::Known(1), M::text(t)).digest()));
+        if collides {
+            ctx.class("assertion-already-present-obscured");
+            return Outcome::Pass;
         }
     }
     // a type that is an envelope with assertions of its own: only the whole envelope is "the type"
